@@ -368,7 +368,16 @@ ChildAnswer ==
 OutputDrops(f) == MapSeq(f.output, LAMBDA v : EvVdrop(v))
 Drop ==
   /\ DropWith(IF fs.returned THEN <<>> ELSE Leftovers(fs) \o OutputDrops(fs))
-ChildPanic == PanicWith(Leftovers(fs) \o OutputDrops(fs))
+\* a panic in a child unwinds through the async state machine of `drive`: everything it owns is dropped during
+\* the unwinding, i.e. before the caller sees the panic; dropping the (then empty) future afterwards drops nothing
+ChildPanic ==
+  /\ pc = "inchild" /\ cfg.panic
+  /\ Emit(<<EvCret(cur, K(cur), "panic", TRUE, -1)>> \o Leftovers(fs) \o OutputDrops(fs)
+          \o <<[e |-> "panic", at |-> "poll"], Ev("drop"), Ev("dropped")>>)
+  /\ pc' = "dropped" /\ final' = TRUE
+  /\ alive' = [c \in Ch |-> FALSE]
+  /\ UNCHANGED <<cfg, fs, rd, cur, ans, pend, nit, polls, handed, firedL, gen, wokenL, started, needPoll,
+                 nfire, nstale, nspur, ninfire, seen, conc, quiesced>>
 
 Next == (Poll /\ fs.announced) \/ (PollReuse /\ fs.announced) \/ Wakes \/ Quiesce \/ Finish
         \/ Announce \/ PollBegin \/ Control \/ ChildAnswer \/ ChildPanic \/ (Drop /\ fs.announced)
